@@ -226,6 +226,8 @@ BASE_SLOTS = [s for s in SLOT_NAMES if s not in ("traj", "metric")]
 def pool(slot):
     if slot == "static2":
         return [(lab, 1) for lab, _ps in STATIC2]
+    if slot == "zerob":
+        return [(lab, 1) for lab, _ps in ZEROB]
     if slot == "intarg":  # pseudo-slot: the hand-enumerated integer-indexed problems INTARG
         return [(lab, 1) for lab, _ps in INTARG]
     name, kind, ai = next(s for s in SLOTS if s[0] == slot)
@@ -265,6 +267,8 @@ def make(choices, variant=None):
     variant "bool": the same universe without the numeric fluents n, c, m."""
     if "static2" in choices:  # pseudo-slot: one of the hand-enumerated STATIC2 problems
         return dict(STATIC2[choices["static2"]][1])
+    if "zerob" in choices:
+        return dict(ZEROB[choices["zerob"]][1])
     if "intarg" in choices:  # pseudo-slot: one of the hand-enumerated INTARG problems
         lab, ps = INTARG[choices["intarg"]]
         if variant == "bool" and lab.split(":")[1].startswith("cnt"):
@@ -480,6 +484,41 @@ def _static2_specs():
 
 
 STATIC2 = _static2_specs()
+
+
+# ======================================================================================
+# family zerob: numeric fluents whose type has a bound that is exactly 0 (or only one bound),
+# pushed across it by increase / decrease / assign whose amount is read from an unbounded fluent
+# (a constant amount outside the type is rejected at modelling time).  Seed C03-3: `if upper:`.
+def _zerob_specs():
+    out = []
+    z, u = ("f", "z"), ("f", "u")
+    for kind in ("int", "real"):
+        for lo, hi in ((None, 0), (-2, 0), (0, None), (0, 2), (-1, None), (None, -1)):
+            z0 = hi if hi is not None and hi < 0 else 0
+            for u0 in (1, -1):
+                ps = {
+                    "name": "zerob", "types": (("T", None),), "objects": (("o1", "T"),),
+                    "fluents": (
+                        ("z", (kind, lo, hi), (), ("i", z0)),
+                        ("u", (kind, None, None), (), ("i", u0)),
+                    ),
+                    "actions": (
+                        {"name": "up", "params": (), "pre": (), "eff": (("inc", z, u, None, ()),)},
+                        {"name": "down", "params": (), "pre": (), "eff": (("dec", z, u, None, ()),)},
+                        {"name": "set", "params": (), "pre": (), "eff": (("assign", z, u, None, ()),)},
+                    ),
+                    "goals": (), "ifuns": (), "init": (), "metric": None, "traj": (),
+                }
+                out.append(("zerob:%s[%s,%s]/u=%d" % (kind, lo, hi, u0), ps))
+    return out
+
+
+ZEROB = _zerob_specs()
+
+
+def zerob_ids():
+    return [(1, (("zerob", i),)) for i in range(len(ZEROB))]
 
 
 def intarg_ids():
